@@ -101,8 +101,8 @@ def run_e1(rep, prop, tier, only=None, procs=None):
                 if "error" in r:
                     rep.error(f"selftest:{n}", r["error"])
                     continue
-                if any(v["status"] == "refuted" for v in r["vcs"]):
-                    killed += 1
+                if any(v["status"] != "proved" for v in r["vcs"]):
+                    killed += 1  # refuted, or (prove mode) no longer provable
                 else:
                     rep.error(f"selftest:{n}", f"seeded mutant survived: {m[0][:50]!r} -> {m[1][:50]!r}")
             rep.extra["seeded_mutants_killed"] = f"{killed}/{len(mjobs)}"
